@@ -310,18 +310,23 @@ func runIxScenario(d *Driver, id string, sc ixScenario, res *Result) *seqFail {
 		}
 		run.midFired = false
 		run.midHook = nil
-		midKey := 0
+		var midKeys []int
 		if mid {
-			freshKey++
-			midKey = freshKey
+			for j := 0; j < 3; j++ {
+				freshKey++
+				midKeys = append(midKeys, freshKey)
+			}
 			run.midHook = func() {
-				// a concurrent-looking AddLabels while the invalidation is inside a deleter: the new key is written to
-				// every cache of every name and labelled with the first label under every name
-				for _, b := range backs {
-					_ = b.Write(ctx, keyBytes(midKey), 1)
-				}
-				for n := 1; n <= sc.Names; n++ {
-					ix.AddLabels(nameStr[n], keyBytes(midKey), labels[0])
+				// concurrent-looking AddLabels calls while the invalidation is inside a deleter: three new keys are written to
+				// every cache of every name and labelled, one call each, with the first label under every name (several calls:
+				// a key list that aliases the one being iterated is overwritten beyond the position already visited)
+				for _, mk := range midKeys {
+					for _, b := range backs {
+						_ = b.Write(ctx, keyBytes(mk), 1)
+					}
+					for n := 1; n <= sc.Names; n++ {
+						ix.AddLabels(nameStr[n], keyBytes(mk), labels[0])
+					}
 				}
 			}
 		}
@@ -352,7 +357,12 @@ func runIxScenario(d *Driver, id string, sc ixScenario, res *Result) *seqFail {
 		if run.midFired {
 			// the hook wrote midKey everywhere; none of those writes count as removed/added here
 			for did := range after {
-				delete(after[did], midKey)
+				for _, mk := range midKeys {
+					if !after[did][mk] {
+						return &seqFail{"monitor", "C15", "inval:precision", fmt.Sprintf("op #%d %s: key k%d, labelled while the call was in flight (after its keys were cut), was removed by it", i, op, mk), i, nil}, err != nil
+					}
+					delete(after[did], mk)
+				}
 			}
 		}
 		// monitor: count
@@ -449,7 +459,9 @@ func runIxScenario(d *Driver, id string, sc ixScenario, res *Result) *seqFail {
 				if shadow[nn][op.Labels[0]] == nil {
 					shadow[nn][op.Labels[0]] = map[int]bool{}
 				}
-				shadow[nn][op.Labels[0]][midKey] = true
+				for _, mk := range midKeys {
+					shadow[nn][op.Labels[0]][mk] = true
+				}
 			}
 			res.count("inval:addlabels-inside-delete")
 			midUsed = true
